@@ -58,7 +58,7 @@ REG = {}      # per-context registries live on the Ctx (uf_cache); this is only 
 
 def _reg():
     c = ctx()
-    return c.uf_cache.setdefault("matalg", {"chol": {}, "inv": {}, "diag": {}, "atoms": {}})
+    return c.uf_cache.setdefault("matalg", {"chol": {}, "inv": {}, "diag": {}, "atoms": {}, "ginv": {}})
 
 
 # ---- word reduction ---------------------------------------------------------------------------------------------
@@ -640,7 +640,80 @@ def mat_matmul2(A, B):
             w = _reduce(w1 + w2)
             c = _cmul(c1, c2)
             nf[w] = _cadd(nf[w], c) if w in nf else c
-    return Mat(A.rows, B.cols, nf)
+    return Mat(A.rows, B.cols, _absorb_inverses(nf))
+
+
+def _absorb_inverses(nf):
+    """X X^-1 = X^-1 X = I for an inverse of a SUM  X = sum_w c_w w  (created by `solve`): a group of words
+    P0 w X^-1 R (all w of X, coefficients lambda c_w) is lambda P0 R; likewise P0 X^-1 w R"""
+    reg = _reg()
+    if not reg["ginv"]:
+        return nf
+    changed = True
+    while changed:
+        changed = False
+        for Xi, X in reg["ginv"].values():
+            xw = {tuple(w): c for w, c in X.nf.items()}
+            if not all(isinstance(c, (int, float)) for c in xw.values()):
+                continue
+            for side in ("right", "left"):
+                groups = {}
+                for w, c in nf.items():
+                    if not isinstance(c, (int, float)):
+                        continue
+                    for p, (a, t) in enumerate(w):
+                        if a is not Xi or t:
+                            continue
+                        for x_w in xw:
+                            L = len(x_w)
+                            if side == "right" and p >= L and tuple(w[p - L:p]) == x_w:
+                                groups.setdefault((w[:p - L], w[p + 1:]), {})[x_w] = (w, c)
+                            if side == "left" and tuple(w[p + 1:p + 1 + L]) == x_w:
+                                groups.setdefault((w[:p], w[p + 1 + L:]), {})[x_w] = (w, c)
+                for (P0, R), found in groups.items():
+                    if set(found) != set(xw):
+                        continue
+                    lam = {round(found[k][1] / xw[k], 12) for k in xw}
+                    if len(lam) != 1:
+                        continue
+                    lam = lam.pop()
+                    if len({found[k][0] for k in xw}) != len(xw):
+                        continue
+                    for k in xw:
+                        nf.pop(found[k][0], None)
+                    tgt = _reduce(tuple(P0) + tuple(R))
+                    c_new = _cadd(nf.get(tgt, 0), lam)
+                    if _czero(c_new):
+                        nf.pop(tgt, None)
+                    else:
+                        nf[tgt] = c_new
+                    changed = True
+                    break
+                if changed:
+                    break
+            if changed:
+                break
+    return nf
+
+
+def general_inverse(X):
+    """X^-1 for a square matrix in normal form (numpy/scipy `solve`); no symmetry assumed"""
+    if not isinstance(X, Mat) or X.vec or not dim_eq(X.rows, X.cols):
+        raise Unsupported("solve with a non-abstract or non-square matrix")
+    reg = _reg()
+    k = X.key()
+    if k not in reg["ginv"]:
+        Xi = Atom(f"inv({k})", X.rows, X.rows, symmetric=False, kind="inv", meta=_single_atom(X))
+        reg["ginv"][k] = (Xi, Mat(X.rows, X.cols, dict(X.nf)))
+    Xi = reg["ginv"][k][0]
+    return Mat(X.rows, X.cols, {((Xi, False),): 1})
+
+
+def solve(X, B):
+    Bm = _as_mat_like(B, None)
+    if not isinstance(Bm, Mat):
+        raise Unsupported("solve right-hand side")
+    return mat_matmul(general_inverse(X), Bm)
 
 
 def mat_matmul(a, b):
